@@ -55,7 +55,7 @@ def run(ctx):
     ctx.budget_s = 900 if ctx.thorough else 100
     n = 4 if ctx.thorough else 3
     _hist.exhaustive_single_ops(ctx, out, judge, max_nodes=n, alphabet=[0, 1, 6],
-                                ops_of=lambda impl, ti: [o for o in _hist.all_single_ops(impl, ti, labels=[0, 6, 2]) if o["op"] in ("w.setdata", "w.remove", "w.move", "w.removechildren")],
+                                ops_of=lambda impl, ti: [o for o in _hist.all_single_ops(impl, ti, labels=[0, 6, 2]) if o["op"] in ("w.setdata", "w.remove", "w.move", "w.removechildren", "w.del")],
                                 label_limit=8 if ctx.thorough else 3)
     _hist.history_campaign(ctx, out, judge, n_hist=1500 if ctx.thorough else 160, n_steps=100 if ctx.thorough else 25, profiles=PROFILES, labels_sets=LABELS)
     return out
